@@ -456,10 +456,35 @@ Proof.
         -- inversion H; subst. exists h1; auto.
 Qed.
 
-(* ticks *)
-Lemma run_ticks_spec bo stops : forall rs st st' o h,
-  Forall (tick_wf stops) rs -> s_rec st = Some h -> h_status h = SRunning ->
-  run_ticks bo stops rs st = (st', o) ->
+(* the idle-mark clearing of on_tick never touches status, result or error *)
+Lemma on_tick_clear_spec marked ic r st st1 m1 :
+  on_tick_clear marked ic r st = (st1, m1) ->
+  f_status (s_fl st1) = f_status (s_fl st) /\ f_event (s_fl st1) = f_event (s_fl st) /\
+  (f_idle (s_fl st) = [] -> f_idle (s_fl st1) = []) /\
+  (s_rec st1 = s_rec st \/ s_rec st1 = option_map (upd_status None None None (Some false)) (s_rec st)).
+Proof.
+  unfold on_tick_clear. destruct r as [cs | c]; [| intro H; inversion H; subst; auto].
+  destruct (marked && negb ic); [| intro H; inversion H; subst; auto].
+  destruct (idle_write false st) as [st2 ok] eqn:E. apply idle_write_spec in E.
+  destruct E as (E1 & E2 & E3 & E4). cbn. intro H; inversion H; subst.
+  split; [exact E1 | split; [exact E2 | split]].
+  - intro Hq. apply E3 in Hq. tauto.
+  - destruct ok; [right | left]; exact E4.
+Qed.
+
+Lemma on_tick_clear_running marked ic r st st1 m1 h :
+  on_tick_clear marked ic r st = (st1, m1) -> s_rec st = Some h -> h_status h = SRunning ->
+  exists h1, s_rec st1 = Some h1 /\ h_status h1 = SRunning /\ h_result h1 = h_result h /\ h_error h1 = h_error h.
+Proof.
+  intros H Hr Hs. apply on_tick_clear_spec in H. destruct H as (_ & _ & _ & [H | H]); rewrite Hr in H.
+  - exists h; auto.
+  - cbn in H. eexists; split; [exact H | cbn; auto].
+Qed.
+
+(* one tick, as the server sees it *)
+Lemma run_tick_m_spec bo stops m tk st st' m' o h :
+  tick_wf stops tk -> s_rec st = Some h -> h_status h = SRunning ->
+  run_tick_m bo stops m tk st = (st', m', o) ->
   exists h', s_rec st' = Some h' /\
     match o with
     | None => h_status h' = SRunning /\ h_result h' = h_result h /\ h_error h' = h_error h
@@ -468,18 +493,40 @@ Lemma run_ticks_spec bo stops : forall rs st st' o h,
     | Some oc => agrees h' oc
     end.
 Proof.
-  induction rs as [|r rs IH]; intros st st' o h Hw Hr Hs H.
+  unfold run_tick_m, tick_wf. destruct tk as [ic r]. cbn [fst snd]. intros Hw Hr Hs H.
+  destruct (on_tick_clear m ic r st) as [st1 m1] eqn:Ec.
+  destruct (on_tick_clear_running _ _ _ _ _ _ _ Ec Hr Hs) as (h1 & Hr1 & Hs1 & Hres1 & Herr1).
+  destruct (run_tick bo stops r st1) as [st2 o2] eqn:Et. inversion H; subst.
+  destruct r as [cs | code]; cbn [run_tick] in Et.
+  - destruct (process_cmds_spec _ _ _ _ _ _ _ Hw Hr1 Hs1 Et) as (h' & Hr' & Hpost).
+    exists h'. split; [exact Hr' |]. destruct o as [oc|].
+    + destruct oc; auto. contradiction.
+    + destruct Hpost as (A & B & C). repeat split; congruence.
+  - inversion Et; subst. exists h1. split; [exact Hr1 |]. repeat split; congruence.
+Qed.
+
+(* ticks *)
+Lemma run_ticks_spec bo stops : forall rs m st st' o h,
+  Forall (tick_wf stops) rs -> s_rec st = Some h -> h_status h = SRunning ->
+  run_ticks bo stops m rs st = (st', o) ->
+  exists h', s_rec st' = Some h' /\
+    match o with
+    | None => h_status h' = SRunning /\ h_result h' = h_result h /\ h_error h' = h_error h
+    | Some OStoreExc => True
+    | Some (OEngineExc _) => h_status h' = SRunning /\ h_result h' = h_result h /\ h_error h' = h_error h
+    | Some oc => agrees h' oc
+    end.
+Proof.
+  induction rs as [|tk rs IH]; intros m st st' o h Hw Hr Hs H.
   - cbn in H. inversion H; subst. exists h; auto.
   - inversion Hw as [|? ? Hw1 Hw2]; subst. cbn [run_ticks] in H.
-    destruct r as [cs | code]; cbn [run_tick] in H.
-    + destruct (process_cmds bo stops cs st) as [st1 o1] eqn:Ep.
-      destruct (process_cmds_spec _ _ _ _ _ _ _ Hw1 Hr Hs Ep) as (h1 & Hr1 & Hpost).
-      destruct o1 as [oc|].
-      * inversion H; subst. exists h1. split; [exact Hr1 |]. destruct oc; auto. contradiction.
-      * destruct Hpost as (A & B & C).
-        destruct (IH _ _ _ _ Hw2 Hr1 A H) as (h' & Hr' & Hpost'). exists h'. split; [exact Hr' |].
-        destruct o as [[]|]; auto; destruct Hpost' as (A' & B' & C'); repeat split; congruence.
-    + inversion H; subst. exists h; auto.
+    destruct (run_tick_m bo stops m tk st) as [[st1 m1] o1] eqn:Et.
+    destruct (run_tick_m_spec _ _ _ _ _ _ _ _ _ Hw1 Hr Hs Et) as (h1 & Hr1 & Hpost).
+    destruct o1 as [oc|].
+    + inversion H; subst. exists h1. split; [exact Hr1 | exact Hpost].
+    + destruct Hpost as (A & B & C).
+      destruct (IH _ _ _ _ _ Hw2 Hr1 A H) as (h' & Hr' & Hpost'). exists h'. split; [exact Hr' |].
+      destruct o as [[]|]; auto; destruct Hpost' as (A' & B' & C'); repeat split; congruence.
 Qed.
 
 (* the watcher *)
@@ -542,14 +589,24 @@ Proof.
       destruct ok; [eapply IH; eassumption | inversion H; subst; exact T1].
 Qed.
 
-Lemma run_ticks_tol bo stops : forall rs st st' o, run_ticks bo stops rs st = (st', o) -> tol bo st -> tol bo st'.
+Lemma run_tick_m_tol bo stops m tk st st' m' o : run_tick_m bo stops m tk st = (st', m', o) -> tol bo st -> tol bo st'.
 Proof.
-  induction rs as [|r rs IH]; intros st st' o H Ht; cbn [run_ticks] in H.
+  unfold run_tick_m. destruct tk as [ic r]. cbn [fst snd]. intros H Ht.
+  destruct (on_tick_clear m ic r st) as [st1 m1] eqn:Ec. apply on_tick_clear_spec in Ec. destruct Ec as (E1 & _).
+  assert (T1 : tol bo st1) by (unfold tol in *; congruence).
+  destruct (run_tick bo stops r st1) as [st2 o2] eqn:Et. inversion H; subst.
+  destruct r as [cs | code]; cbn [run_tick] in Et.
+  - eapply process_cmds_tol; eassumption.
+  - inversion Et; subst; exact T1.
+Qed.
+
+Lemma run_ticks_tol bo stops : forall rs m st st' o, run_ticks bo stops m rs st = (st', o) -> tol bo st -> tol bo st'.
+Proof.
+  induction rs as [|tk rs IH]; intros m st st' o H Ht; cbn [run_ticks] in H.
   - inversion H; subst; exact Ht.
-  - destruct r as [cs | code]; cbn [run_tick] in H.
-    + destruct (process_cmds bo stops cs st) as [st1 o1] eqn:Ep. pose proof (process_cmds_tol _ _ _ _ _ _ Ep Ht) as T1.
-      destruct o1; [inversion H; subst; exact T1 | eapply IH; eassumption].
-    + inversion H; subst; exact Ht.
+  - destruct (run_tick_m bo stops m tk st) as [[st1 m1] o1] eqn:Et.
+    pose proof (run_tick_m_tol _ _ _ _ _ _ _ _ Et Ht) as T1.
+    destruct o1; [inversion H; subst; exact T1 | eapply IH; eassumption].
 Qed.
 
 (* ---------- the whole run ---------- *)
@@ -565,8 +622,8 @@ Proof.
   destruct (retry_status bo _ CallInit (fresh fl)) as [st0 ok] eqn:Es.
   destruct ok; [| discriminate].
   apply retry_ok_applies in Es.
-  destruct (run_ticks bo stops rs st0) as [st1 o1] eqn:Er.
-  destruct (run_ticks_spec _ _ _ _ _ _ new_handler Hw Es eq_refl Er) as (h1 & Hr1 & Hpost).
+  destruct (run_ticks bo stops false rs st0) as [st1 o1] eqn:Er.
+  destruct (run_ticks_spec _ _ _ _ _ _ _ new_handler Hw Es eq_refl Er) as (h1 & Hr1 & Hpost).
   destruct o1 as [oc|]; cbn [finish_run] in H; [| discriminate]. inversion H; subst.
   destruct (watcher_spec bo o st1 h1 Hr1) as (h' & Hw' & Hterm & Hnone & _).
   exists h'. split; [exact Hw' |].
@@ -592,9 +649,9 @@ Proof.
   { destruct (retry_tolerable bo (fun _ => Some new_handler) CallInit bo 0%nat (fresh fl) (Nat.add_0_r bo) Ht) as (s2 & E2 & T2).
     rewrite Es in E2. inversion E2; subst. exact T2. }
   apply retry_ok_applies in Es.
-  destruct (run_ticks bo stops rs st0) as [st1 o1] eqn:Er.
-  pose proof (run_ticks_tol _ _ _ _ _ _ Er T0) as T1.
-  destruct (run_ticks_spec _ _ _ _ _ _ new_handler Hw Es eq_refl Er) as (h1 & Hr1 & Hpost).
+  destruct (run_ticks bo stops false rs st0) as [st1 o1] eqn:Er.
+  pose proof (run_ticks_tol _ _ _ _ _ _ _ Er T0) as T1.
+  destruct (run_ticks_spec _ _ _ _ _ _ _ new_handler Hw Es eq_refl Er) as (h1 & Hr1 & Hpost).
   destruct o1 as [oc|]; cbn [finish_run] in H; [| discriminate]. inversion H; subst.
   destruct (watcher_spec bo o st1 h1 Hr1) as (h' & Hw' & Hterm & Hnone & Hrun & _).
   exists h'. split; [exact Hw' |].
@@ -627,17 +684,17 @@ Proof.
 Qed.
 
 (* the unrepaired service (nobody awaits the run): an engine-side failure leaves the handler running *)
-Definition server_run_unrepaired (bo : nat) (stops : list Z) (rs : list (res (list command))) (st : sstore)
+Definition server_run_unrepaired (bo : nat) (stops : list Z) (rs : list stick) (st : sstore)
   : sstore * option outcome :=
   let '(st0, ok) := start_handler bo st in
-  if ok then run_ticks bo stops rs st0 else (st0, None).
+  if ok then run_ticks bo stops false rs st0 else (st0, None).
 
 Theorem unrepaired_refuted :
   exists rs st' o, Forall (tick_wf [9]) rs /\
     server_run_unrepaired 2 [9] rs (fresh no_faults) = (st', Some o) /\ o <> OIdleReleased /\
     rec_status st' = Some SRunning.
 Proof.
-  exists [Ok [CPublish (PStep 1 Running (Some 0%nat) 0 NoOut)] ; Err 3]. eexists. eexists.
+  exists [(false, Ok [CPublish (PStep 1 Running (Some 0%nat) 0 NoOut)]) ; (false, Err 3)]. eexists. eexists.
   split; [repeat constructor | split; [reflexivity | split; [discriminate | reflexivity]]].
 Qed.
 
@@ -647,7 +704,7 @@ Theorem outage_leaves_running :
   exists rs fl st' o, Forall (tick_wf [9]) rs /\
     server_run 2 [9] rs (fresh fl) = (st', Some o) /\ o <> OIdleReleased /\ rec_status st' = Some SRunning.
 Proof.
-  exists [Ok [CPublish PCancelled ; CHalt HCancelled]].
+  exists [(false, Ok [CPublish PCancelled ; CHalt HCancelled])].
   exists {| f_status := [false; true; true; true; true; true; true] ; f_event := [] ; f_idle := [] |}.
   eexists. eexists.
   split; [repeat constructor | split; [reflexivity | split; [discriminate | reflexivity]]].
@@ -709,16 +766,35 @@ Proof.
     + destruct (publish_sim bo stops p a b Hv) as (a1 & b1 & Ea & Eb & V1). rewrite Ea, Eb. apply IH; exact V1.
 Qed.
 
-Lemma run_ticks_sim bo stops : forall rs a b,
+Lemma on_tick_clear_sim bo m ic r a b :
   same_view bo a b ->
-  exists a' b' o, run_ticks bo stops rs a = (a', o) /\ run_ticks bo stops rs b = (b', o) /\ same_view bo a' b'.
+  same_view bo (fst (on_tick_clear m ic r a)) (fst (on_tick_clear m ic r b)) /\
+  snd (on_tick_clear m ic r a) = snd (on_tick_clear m ic r b).
 Proof.
-  induction rs as [|r rs IH]; intros a b Hv; cbn [run_ticks].
+  intros (Hr & Ta & Tb & [Qa1 Qa2] & [Qb1 Qb2]). unfold on_tick_clear.
+  destruct r as [cs | c]; [| split; [repeat split; auto | reflexivity]].
+  destruct (m && negb ic); [| split; [repeat split; auto | reflexivity]].
+  destruct (idle_write false a) as [a1 oka] eqn:Ia. destruct (idle_write false b) as [b1 okb] eqn:Ib.
+  apply idle_write_spec in Ia. apply idle_write_spec in Ib.
+  destruct Ia as (I1 & I2 & I3 & I4). destruct Ib as (J1 & J2 & J3 & J4).
+  destruct (I3 Qa2) as [-> I5]. destruct (J3 Qb2) as [-> J5]. cbn.
+  split; [| reflexivity]. unfold same_view, tol, quiet_ei in *. rewrite I4, J4, Hr. repeat split; congruence.
+Qed.
+
+Lemma run_ticks_sim bo stops : forall rs m a b,
+  same_view bo a b ->
+  exists a' b' o, run_ticks bo stops m rs a = (a', o) /\ run_ticks bo stops m rs b = (b', o) /\ same_view bo a' b'.
+Proof.
+  induction rs as [|tk rs IH]; intros m a b Hv; cbn [run_ticks].
   - exists a, b, None; auto.
-  - destruct r as [cs | code]; cbn [run_tick].
-    + destruct (process_cmds_sim bo stops cs a b Hv) as (a1 & b1 & o1 & Ea & Eb & V1). rewrite Ea, Eb.
-      destruct o1; [exists a1, b1, (Some o); auto | apply IH; exact V1].
-    + exists a, b, (Some (OEngineExc code)); auto.
+  - unfold run_tick_m. destruct tk as [ic r]. cbn [fst snd].
+    destruct (on_tick_clear_sim bo m ic r a b Hv) as [V1 M1].
+    destruct (on_tick_clear m ic r a) as [a1 ma]. destruct (on_tick_clear m ic r b) as [b1 mb].
+    cbn [fst snd] in V1, M1. subst mb.
+    destruct r as [cs | code]; cbn [run_tick].
+    + destruct (process_cmds_sim bo stops cs a1 b1 V1) as (a2 & b2 & o1 & Ea & Eb & V2). rewrite Ea, Eb.
+      destruct o1; [exists a2, b2, (Some o); auto | apply IH; exact V2].
+    + exists a1, b1, (Some (OEngineExc code)); auto.
 Qed.
 
 Lemma watcher_sim bo o a b : same_view bo a b -> s_rec (watcher bo o a) = s_rec (watcher bo o b).
@@ -744,7 +820,7 @@ Proof.
   { repeat split; auto. }
   destruct (retry_sim bo (fun _ => Some new_handler) CallInit CallInit _ _ V0) as (a0 & b0 & Ea & Eb & V1).
   rewrite Ea, Eb.
-  destruct (run_ticks_sim bo stops rs a0 b0 V1) as (a1 & b1 & o & Ra & Rb & V2). rewrite Ra, Rb.
+  destruct (run_ticks_sim bo stops rs false a0 b0 V1) as (a1 & b1 & o & Ra & Rb & V2). rewrite Ra, Rb.
   destruct o as [oc|]; cbn [finish_run fst snd].
   - split; [apply watcher_sim; exact V2 | reflexivity].
   - split; [apply V2 | reflexivity].
@@ -769,17 +845,17 @@ Qed.
 
 Lemma step_op_live bo stops o y : op_wf stops o -> live_inv y -> live_inv (step_op bo stops o y).
 Proof.
-  intros Hw Hi. destruct o as [| r | | | r]; cbn [step_op].
+  intros Hw Hi. destruct o as [| tk | | | r]; cbn [step_op].
   - destruct (s_rec (y_store y)) eqn:Er; [exact Hi |]. destruct (y_phase y) eqn:Ep; try exact Hi.
     unfold start_handler. destruct (retry_status bo _ CallInit (y_store y)) as [st' ok] eqn:Es.
     unfold live_inv. destruct ok; cbn; [| discriminate]. intros _. apply retry_ok_applies in Es.
     eexists; split; [exact Es | reflexivity].
   - destruct (y_phase y) eqn:Ep; try exact Hi. destruct (Hi Ep) as (h & Hr & Hs).
-    destruct (run_tick bo stops r (y_store y)) as [st' o'] eqn:Et.
+    destruct (run_tick_m bo stops (y_marked y) tk (y_store y)) as [[st' m'] o'] eqn:Et.
     unfold live_inv. destruct o' as [oc|].
     + destruct oc; cbn; discriminate.
-    + cbn. intros _. destruct r as [cs | code]; cbn [run_tick] in Et; [| discriminate].
-      destruct (process_cmds_spec _ _ _ _ _ _ _ Hw Hr Hs Et) as (h' & Hr' & A & _). eauto.
+    + cbn. intros _.
+      destruct (run_tick_m_spec _ _ _ _ _ _ _ _ _ Hw Hr Hs Et) as (h' & Hr' & A & _). eauto.
   - unfold rec_status. destruct (s_rec (y_store y)) as [h|] eqn:Er; cbn; [| exact Hi].
     destruct (h_status h) eqn:Es; try exact Hi.
     unfold live_inv. destruct (y_phase y); cbn; intros _; eapply idle_write_status; eauto.
@@ -808,7 +884,7 @@ Proof.
   intros Hi Hr Ht.
   assert (Hph : y_phase y <> PhActive).
   { intro E. destruct (Hi E) as (h0 & E0 & Hs0). rewrite Hr in E0. inversion E0; subst. rewrite Hs0 in Ht. discriminate. }
-  destruct o as [| r | | | r]; cbn [step_op].
+  destruct o as [| tk | | | r]; cbn [step_op].
   - rewrite Hr. reflexivity.
   - destruct (y_phase y); try reflexivity. exfalso; apply Hph; reflexivity.
   - unfold rec_status. rewrite Hr. cbn. destruct (h_status h); [discriminate | reflexivity..].
@@ -856,6 +932,6 @@ Theorem hand_published_stop_reverts :
     s_rec (y_store (run_sops 2 [9] (firstn 2 ops) (sys0 no_faults))) = Some h1 /\ h_status h1 = SCompleted /\
     s_rec (y_store (run_sops 2 [9] ops (sys0 no_faults))) = Some h2 /\ h_status h2 = SRunning.
 Proof.
-  exists [OpStart ; OpTick (Ok [CPublish (PEvent {| ety := 9 ; eid := 1 ; eattrs := [] |})]) ; OpTick (Ok [CPublish PIdle])].
+  exists [OpStart ; OpTick (false, Ok [CPublish (PEvent {| ety := 9 ; eid := 1 ; eattrs := [] |})]) ; OpTick (true, Ok [CPublish PIdle])].
   eexists. eexists. cbn. repeat split; reflexivity.
 Qed.
